@@ -869,6 +869,54 @@ def nvis(src, log):
 DEFAULT_RULES = ("n5", "nvis", "n4", "n2", "n1")
 
 
+def nconcat2(src, log):
+    """`[E1, E2].concat()` -> `vx_concat2(E1, E2)` (std: the concatenation of the two vectors, in that order)"""
+    while True:
+        toks = lex(src)
+        hit = None
+        for i, t in enumerate(toks):
+            if t.text == "[" and t.kind == "open":
+                c = t.mate
+                if c + 4 < len(toks) and toks[c + 1].text == "." and toks[c + 2].text == "concat" \
+                        and toks[c + 3].text == "(" and toks[c + 4].text == ")":
+                    parts = _split_args(src, toks, i)
+                    if len(parts) == 2 and not (i > 0 and (toks[i - 1].kind in ("ident", "close"))):
+                        hit = (i, c, parts)
+                        break
+        if hit is None:
+            return src
+        i, c, parts = hit
+        src = src[:toks[i].start] + f"vx_concat2({parts[0]}, {parts[1]})" + src[toks[c + 4].end:]
+        log.append("N7 [a, b].concat() -> vx_concat2(a, b)")
+
+
+def nblockpush(src, log):
+    """`R.get_current_basicblock().0.push((Arc::new([mir::]Value::None), INST));` -> `R.vx_block_push(INST);`
+    (an instruction without a result register appended to the current basic block; INST is copied verbatim)"""
+    while True:
+        toks = lex(src)
+        hit = None
+        for i, t in enumerate(toks):
+            if t.kind == "ident" and t.text == "get_current_basicblock" and i >= 2 and toks[i - 1].text == "." \
+                    and toks[i + 1].text == "(" and toks[i + 2].text == ")" and toks[i + 3].text == "." \
+                    and toks[i + 4].text == "0" and toks[i + 5].text == "." and toks[i + 6].text == "push" and toks[i + 7].text == "(":
+                o = i + 7
+                c = toks[o].mate
+                if toks[o + 1].text != "(":
+                    continue
+                inner = _split_args(src, toks, o + 1)
+                first = "".join(inner[0].split()) if inner else ""
+                if len(inner) != 2 or first not in ("Arc::new(Value::None)", "Arc::new(mir::Value::None)"):
+                    continue
+                hit = (i, c, inner[1])
+                break
+        if hit is None:
+            return src
+        i, c, inst = hit
+        src = src[:toks[i].start] + f"vx_block_push({inst})" + src[toks[c].end:]
+        log.append("N14 get_current_basicblock().0.push((Arc::new(Value::None), INST)) -> vx_block_push(INST)")
+
+
 def nowrap_assign(src, log, lhs):
     """`LHS += E;` -> `LHS = vx_add_nowrap(LHS, E);` for the one named place (ASSUMED: this counter never wraps)"""
     lt = [t.text for t in lex(lhs)]
@@ -904,6 +952,10 @@ def normalise(src, rules, log, ctx=None):
             src = n9g_match_guard_general(src, log)
         elif r == "n13":
             src = n13_inline_emit_node(src, log, ctx.get("n13_def"))
+        elif r == "nblockpush":
+            src = nblockpush(src, log)
+        elif r == "nconcat2":
+            src = nconcat2(src, log)
         elif r.startswith("nowrap:"):
             src = nowrap_assign(src, log, r.split(":", 1)[1])
         elif r == "nvis":
